@@ -36,7 +36,10 @@ Fixpoint set_last (k : list N) (d : data) (l : list (list N * data)) : list (lis
 Definition dedup_last (ps : list (list N * data)) : list (list N * data) :=
   fold_left (fun acc p => set_last (fst p) (snd p) acc) ps [].
 
-Definition spec_num (n : jnum) : data := DNum (jnum_is_int n) (jnum_dec n).
+(* the value of a number: -0 and 0 are the same number *)
+Definition norm0 (d : dec) : dec :=
+  {| dneg := dneg d && negb (dcoeff d =? 0); dcoeff := dcoeff d; dexp := dexp d |}.
+Definition spec_num (n : jnum) : data := DNum (jnum_is_int n) (norm0 (jnum_dec n)).
 
 Fixpoint spec_data (v : jvalue) : data :=
   match v with
